@@ -507,7 +507,7 @@ fn main() {
         let per = 10;
         for g in 0..gens {
             let mut src = proggen::package_prelude();
-            for k in 0..per { src.push_str(&proggen::gen_program(&mut r, g * per + k, false).to_sw()); }
+            for k in 0..per { src.push_str(&proggen::gen_program(&mut r, g * per + k, false, false).to_sw()); }
             if let Some(p) = src_pkg_template(&format!("c07gen{g}"), &src, &scratch) { pkgs.push(p) }
         }
         let parallel = std::env::var("VERIF_C07_JOBS").ok().and_then(|s| s.parse().ok()).unwrap_or(6);
